@@ -227,6 +227,46 @@ func findZeroHashNames(suffix string, want int) []string {
 	return out
 }
 
+// findShortRuleWithHash builds a rule text abcd^efgh^<suffix> (every literal run four bytes long, so the
+// rule lands in the sequential table) whose FastHash equals target; "" if the search finds none.
+func findShortRuleWithHash(target uint32, suffix string) string {
+	const letters = "abcdefghijklmnopqrstuvwxyz"
+	const inv33 = uint32(1041204193)
+	back := func(h uint32, tail string) uint32 {
+		for i := len(tail) - 1; i >= 0; i-- {
+			h = (h ^ uint32(tail[i])) * inv33
+		}
+		return h
+	}
+	part := func(a, b, c, d rune) string { return string([]rune{a, b, c, d, '^'}) }
+	need := map[uint32]string{}
+	for _, a := range letters {
+		for _, b := range letters {
+			for _, c := range letters {
+				for _, d := range letters {
+					tail := part(a, b, c, d) + suffix
+					need[back(target, tail)] = tail
+				}
+			}
+		}
+	}
+	for _, a := range letters {
+		for _, b := range letters {
+			for _, c := range letters {
+				for _, d := range letters {
+					head := part(a, b, c, d)
+					if tail, ok := need[filterutil.FastHash(head)]; ok {
+						if s := head + tail; filterutil.FastHash(s) == target {
+							return s
+						}
+					}
+				}
+			}
+		}
+	}
+	return ""
+}
+
 func init() {
 	if len(zeroHashNames) == 0 {
 		panic("no name with FastHash 0 found")
